@@ -409,6 +409,22 @@ class C17:
         lat = [8.0 + 0.25 * k for k in range(0, 24)]
         n = 0
         E = 2.0 ** -10
+        from sa.peval import truth as _truth
+        for S_, T_, want_rej in ((9.5, 11.3, False), (10.0, 10.75, False), (8.9, 12.1, False), (12.0, 9.0, True)):
+            envg = {("cmp", "is", start, NONE): False, ("cmp", "isnot", start, NONE): True, ("cmp", "is", stop, NONE): False,
+                    ("cmp", "isnot", stop, NONE): True, start: S_, stop: T_, eps: E, lc: True, rc: False,
+                    ("sub", rng, ("const", 0)): cur[0], ("sub", rng, ("const", 1)): cur[-1], step: 0.25}
+            rej = [_truth(peval(r_.live, envg)) for r_ in s.raises]
+            if None in rej:
+                ctx.undec("R17.3", site, "extend_dim: a rejection outside the recognised fragment")
+                break
+            if any(rej) != want_rej:
+                ctx.bad("R17.3", self.file, "extend_dim", f"request start={S_}, stop={T_}",
+                        f"extend_dim on the axis [10, 10.75]: the request start={S_}, stop={T_} is {'rejected' if any(rej) else 'accepted'} "
+                        f"(a request that contains the axis is valid; only start > stop is rejected)", s.node.lineno, witness={"start": S_, "stop": T_})
+                break
+        else:
+            ctx.ok("R17.3", site, "extend_dim: requests containing the axis are accepted, start > stop is rejected")
         for S, T, lcv, rcv in itertools.product((10.0, 9.75, 9.5, 9.4, 8.9), (10.75, 11.0, 11.25, 11.3, 12.1), (True, False), (True, False)):
             env0 = {("cmp", "is", start, NONE): False, ("cmp", "isnot", start, NONE): True, ("cmp", "is", stop, NONE): False,
                     ("cmp", "isnot", stop, NONE): True, lc: lcv, rc: rcv, start: S, stop: T, eps: E,
@@ -494,6 +510,20 @@ class C17:
         size = 7
         axis = list(range(100, 100 + size))
         n = 0
+        # a valid request (1 <= width < current width, a known position) is not rejected
+        from sa.peval import truth as _truth
+        for position in ("start", "center", "end"):
+            for w in (1, 3, 6):
+                for r_ in s.raises:
+                    lv_ = _truth(peval(r_.live, {pos: position, width: w, cur: size}))
+                    if lv_ is True:
+                        ctx.bad("R17.5", self.file, "crop_dim_width", f"raise under `{show(r_.live)[:60]}`",
+                                f"cropping an axis of {size} samples to width {w} at {position!r} is rejected (`{show(r_.live)[:80]}` holds): "
+                                f"every valid request raises", r_.lineno, witness={"position": position, "width": w, "size": size})
+                        return
+                    if lv_ is None:
+                        ctx.undec("R17.5", site, f"cannot decide the rejection `{show(r_.live)[:70]}` for width {w} of {size}")
+                        return
         for position in ("start", "center", "end"):
             for w in (1, 2, 3, 6):
                 t = peval(cterm, {pos: position})
